@@ -283,7 +283,7 @@ def attach_invariant(ctx):
 
 
 def shards(tier, seed):
-    out = []
+    out = [{'part': 'repo-tests'}]
     n = 14
     if tier == 'quick':
         for i in range(n):
@@ -307,6 +307,10 @@ def run_shard(spec, ctx):
     from hszinc.metadata import MetadataObject
     from hszinc.sortabledict import SortableDict
     from hszinc.datatypes import MARKER
+    if spec['part'] == 'repo-tests':
+        from vf import contracts
+        contracts.repo_tests_shard(ctx, ['sortabledict'], PROP)
+        return
     if spec['part'] == 'dfs':
         ls = Lockstep(ctx, 'MetadataObject', MARKER)
         ops = alphabet(spec['keys'], spec['rich'])
